@@ -87,6 +87,29 @@ class _LazyMemo(object):
         return f"<_LazyMemo {self.obj}>"
 
 
+class _LazyGet(object):
+    """
+    Out of band marker for a ``GET`` of an object that is not memoized yet
+    (its own save is still queued) among lazy writes.
+    """
+
+    def __init__(self, key):
+        self.key = key
+
+    def __repr__(self):
+        return f"<_LazyGet {self.key}>"
+
+
+class _Memo(dict):
+    """
+    The pickler's memo.  Looking up an object whose save is still queued gives
+    a :py:class:`_LazyGet` in place of its (not yet known) memo number.
+    """
+
+    def __missing__(self, key):
+        return (_LazyGet(key), None)
+
+
 class _NonrecursivePickler(dill.Pickler):
     """
     Non-recursive pickler class.
@@ -108,6 +131,7 @@ class _NonrecursivePickler(dill.Pickler):
 
     def __init__(self, file, **kwargs):
         dill.Pickler.__init__(self, file, **kwargs)
+        self.memo = _Memo()
         self.lazywrites = []
         self.realwrite = file.write
 
@@ -127,6 +151,17 @@ class _NonrecursivePickler(dill.Pickler):
             self.lazywrites.append(args)
         else:
             self.realwrite(*args)
+
+    def get(self, i):
+        """
+        The ``GET`` opcode for memo number ``i``.  dill fetches an object right
+        after "saving" it (the globals of a function pickled by value are
+        filled in that way); here that save is merely queued, so the fetch is
+        queued behind it and resolved when it is written.
+        """
+        if isinstance(i, _LazyGet):
+            return i
+        return dill.Pickler.get(self, i)
 
     def save(self, obj, save_persistent_id=None):
         """
@@ -230,6 +265,10 @@ class _NonrecursivePickler(dill.Pickler):
                     if cells:
                         self.lazywrites.extend(lws)
                         break
+                elif isinstance(lw[0], _LazyGet):
+                    self.realwrite(
+                        dill.Pickler.get(self, dict.__getitem__(self.memo, lw[0].key)[0])
+                    )
                 else:
                     self.realwrite(*lw)
         self.realwrite(pickle.STOP)
